@@ -1,1 +1,22 @@
-From SF Require Import Base.Prelude Properties.C04.
+(* Pinned statements of C04: re-checked on every run. *)
+From SF Require Import Base.Prelude Gen.Generated Unsized.Types Unsized.Parse Unsized.Proofs.EncodeParse Properties.C04.
+
+Check (C04_parse_never_faults :
+ forall ovf t bs, parse ovf t bs <> Fault).
+Check (C04_extent_never_faults :
+ forall ovf t bs, extent ovf t bs <> Fault).
+Check (C04_owned_never_faults :
+ forall ovf t bs, owned ovf t bs <> Fault).
+Check (C04_extent_inside :
+ forall ovf t bs n, extent ovf t bs = Ok n -> 0 <= n <= zlen bs).
+Check (C04_valid_bits :
+  forall ovf t bs v n, parse ovf t bs = Ok (v, n) -> valid_bits t v = true /\ 0 <= n <= zlen bs).
+Check (C04_extent_total_unchecked :
+ forall t bs, extent false t bs <> Panic).
+
+Print Assumptions C04_parse_never_faults.
+Print Assumptions C04_extent_never_faults.
+Print Assumptions C04_owned_never_faults.
+Print Assumptions C04_extent_inside.
+Print Assumptions C04_valid_bits.
+Print Assumptions C04_extent_total_unchecked.
